@@ -13,7 +13,9 @@ RULE = ("trees up to depth 4 with hidden files and directories at every level, 1
         "combination of mode x --recursive x --include-hidden x filter kind (glob / regex / template / none) x "
         "--filter-invert; the considered entries are read from the run (identity template, so nothing is renamed) and "
         "compared with the model's gatherer (multiset) and with a specification evaluated directly on the tree; glob "
-        "patterns vs fnmatch.fnmatchcase on generated pattern/name pairs; non-trivial = the tree has a hidden component "
+        "patterns vs fnmatch.fnmatchcase on generated pattern/name pairs; stream moving_runs: real (non-dry) runs with arbitrary "
+        "plans (files moved into directories that exist and are listed later, unsorted recursive walks): every entry a name "
+        "is generated for must be a designated entry of the initial tree, once per designation; non-trivial = the tree has a hidden component "
         "or a filter is given; distinct by the full case")
 ASSUMPTIONS = [
     "regex and template filters are arbitrary total predicates in the theorems; in the oracle they are evaluated with re / "
@@ -236,6 +238,18 @@ def obs_glob(case, answers):
     return answers[0] == "T"
 
 
+
+
+# ------------------------------------------------------------------ selection while files really move
+def gen_moving(rng, n, tier):
+    for _ in range(n):
+        yield fsrun.gen_scenario(rng, dry=False, fault=False, strategies=("stop", "ignore", "override"))
+
+
+def oracle_moving(case, obs):
+    return fsrun.selection_violation(case, obs, what=("selection",))
+
+
 def streams(tier):
     return [
         Stream("selection", gen_selection, impl_selection, lines_selection, lambda c, a: {}, oracle=oracle_selection,
@@ -244,6 +258,10 @@ def streams(tier):
                classify=lambda c, o: ["mode:" + c["mode"], "rec" if c["recursive"] else "flat", "hidden" if c["hidden"] else "nohidden",
                                       "filter:" + str(c["filter_kind"]), "invert" if c["invert"] else "plain", "rc:%s" % o["rc"],
                                       "n:%d" % min(len(o["considered"]), 6)]),
+        Stream("moving_runs", gen_moving, fsrun.observe, oracle=oracle_moving, parallel=True, quick=1200, thorough=15000,
+               nontrivial=lambda c, o: bool(o["ops"]),
+               classify=lambda c, o: ["mode:" + c["mode"], "rec" if c["recursive"] else "flat", "sorted" if c["sorted"] else "unsorted",
+                                      "rc:%s" % o["rc"], "ops:%d" % min(len(o["ops"]), 5)]),
         Stream("glob", gen_glob, impl_glob, lines_glob, obs_glob, quick=30000, thorough=300000,
                nontrivial=lambda c, o: any(ch in c["pat"] for ch in "*?[")),
     ]
